@@ -121,10 +121,17 @@ def check_kang_roundtrip(ctx, rng):
                 ctx.violation('kang-restore', 'restored Kang simulation gives a different receiver response', {'sides': sides}, None, 'bit-identical')
 
 
-def _op_failed(ctx, e):
+def _sig(e):
     sig = 'history-step-fails'
     if e.op[0] == 'R' and 'brdf_incoming_directions' in repr(e.exc) and getattr(e, 'partial_walls', False):
         sig = 'restore-fails:partially-set-walls'
+    if e.op[0] == 'R' and 'form_factors_tilde need to be of shape' in repr(e.exc) and getattr(e, 'stale_baked', False):
+        sig = 'restore-fails:setter-after-bake-changed-band-or-direction-count'
+    return sig
+
+
+def _op_failed(ctx, e):
+    sig = _sig(e)
     ctx.violation(sig, 'a legal history step is refused by the implementation: %s' % e, {'op': list(map(str, e.op)), 'step': e.k}, repr(e.exc)[:300], 'the step succeeds')
 
 
@@ -132,9 +139,7 @@ def run(ctx):
     try:
         _run(ctx)
     except histories.OpFailed as e:
-        sig = 'history-step-fails'
-        if e.op[0] == 'R' and 'brdf_incoming_directions' in repr(e.exc) and getattr(e, 'partial_walls', False):
-            sig = 'restore-fails:partially-set-walls'
+        sig = _sig(e)
         ctx.violation(sig, 'a legal history step is refused by the implementation: %s' % e, {'op': list(map(str, e.op)), 'step': e.k}, repr(e.exc)[:300], 'the step succeeds')
 
 
@@ -147,7 +152,7 @@ def _run(ctx):
             table = histories.TermTable(ctx)
             lines, reals, opss = [], [], []
             for h in range(n_hist):
-                ops = histories.gen_history(ctx.rng, pool, with_restore=True)
+                ops = histories.gen_history(ctx.rng, pool, with_restore=True, norecalc=True, late_setters=True)
                 try:
                     r, snaps = histories.run_real(ops, pool, td)
                 except histories.OpFailed as e:
@@ -166,6 +171,15 @@ def _run(ctx):
                 for h, line in enumerate(common.run_driver(lines)):
                     histories.compare(ctx, table, 'pool%d.h%d' % (pi, h), opss[h], reals[h], histories.parse_states(line))
             check_roundtrip(ctx, pool, td, stages=None if (ctx.tier != 'quick' or pi == 0) else ['baked', 'exchanged'])
+            # saving between a setter that follows a bake and the next bake
+            for probe in ([('B',), ('A', 'a0'), ('R', 'dict'), ('B',)],
+                          [('B',), ('S', list(range(histories.W)), 'm0'), ('R', 'file'), ('B',)]):
+                ctx.oracle_evals += 1
+                ctx.count('probe.setter_after_bake')
+                try:
+                    histories.run_real(probe, pool, td)
+                except histories.OpFailed as e:
+                    _op_failed(ctx, e)
     check_kang_roundtrip(ctx, ctx.rng)
 
 
@@ -173,9 +187,7 @@ def oracle(ctx, budget_s=60):
     try:
         _oracle(ctx, budget_s)
     except histories.OpFailed as e:
-        sig = 'history-step-fails'
-        if e.op[0] == 'R' and 'brdf_incoming_directions' in repr(e.exc) and getattr(e, 'partial_walls', False):
-            sig = 'restore-fails:partially-set-walls'
+        sig = _sig(e)
         ctx.violation(sig, 'a legal history step is refused by the implementation: %s' % e, {'op': list(map(str, e.op)), 'step': e.k}, repr(e.exc)[:300], 'the step succeeds')
 
 
